@@ -196,3 +196,8 @@ def prelude(weight_none=4):
     spec = st.fixed_dictionaries({"kind": st.sampled_from(PRELUDE_KINDS), "same": st.booleans(),
                                   "end": st.sampled_from(["eof", "eof", "reset"])})
     return weighted([(weight_none, st.none()), (1, spec)])
+
+
+def debug_log():
+    """The application has DEBUG logging enabled for the library (runner case key "debug_log"): mostly not."""
+    return weighted([(6, st.just(False)), (1, st.just(True))])
